@@ -24,5 +24,10 @@
 
 /* R4: `new` never returns NULL (std::bad_alloc paths are out of scope, stated assumption) */
 static inline void *verif_alloc(size_t sz) { void *p = malloc(sz); __CPROVER_assume(p != 0); return p; }
+#ifdef VERIF_BOUND
+/* bounded arbiter (tools/check.py): the same harness and contracts, dimensions capped, loops unwound instead of loop contracts */
+#define VERIF_NMAX VERIF_BOUND
+#else
 #define VERIF_NMAX 100000000   /* upper bound on symbolic dimensions (keeps 4*n inside the object-size range); not an unwinding bound */
+#endif
 #endif
